@@ -151,4 +151,3 @@ func (o *Op) Object(certs *Certs) (client.Object, error) {
 	}
 	return nil, fmt.Errorf("unknown op kind %q", o.Kind)
 }
-
